@@ -35,10 +35,17 @@ impl Prop for C06 {
   fn flavours(&self, tier: Tier) -> Vec<&'static str> { if tier == Tier::Thorough { vec!["chk", "asan"] } else { vec!["chk"] } }
 
   fn gen(&self, tier: Tier, seed: u64) -> Vec<Case> {
-    gen_programs(tier, seed, 2500, 40000).into_iter().map(|(id, p)| {
+    let mut out: Vec<Case> = gen_programs(tier, seed, 2500, 40000).into_iter().map(|(id, p)| {
       let cell = format!("stratum={};constructs={}", if p.restricted { "restricted" } else { "general" }, p.constructs());
       Case { id: format!("{};{}", id, cell), cell, input: json!({"src": p.text(), "restricted": p.restricted}) }
-    }).collect()
+    }).collect();
+    // every registered native function x argument shapes (general class: the bytecode may refuse, but must not lie)
+    for (k, (id, src)) in stdlib_sweep().into_iter().enumerate() {
+      if tier == Tier::Quick && (k as u64 + seed) % 2 != 0 { continue; }
+      let f = id.split(';').next().unwrap_or("").to_string();
+      out.push(Case { id: format!("stdlib;{}", id), cell: format!("stratum=general;constructs=stdlib;{}", f), input: json!({"src": src, "restricted": false}) });
+    }
+    out
   }
 
   fn run(&self, case: &Case, _flavour: &str) -> Outcome {
